@@ -260,7 +260,7 @@ pub fn oracle_c01_csr(der: &[u8], x: &CsrCtx) {
 pub fn run(s: &CsrShape) {
     let cs = CertShape {
         issuance: 0, aki: false, san: s.san, ku: s.ku, eku: s.eku, nc: 0, nc_perm: &[], nc_excl: &[], crl_dps: &[], is_ca: 0, path_len: 0, custom: s.custom, custom_crit: s.custom_crit,
-        serial: -1, serial_b0: 0, kid: 0, kid_len: 0, ikid: 0, ikid_len: 0, strlen: s.strlen, alg: s.alg, ialg: s.alg, sign_fails: s.sign_fails, oracles: 0,
+        serial: -1, serial_b0: 0, serial_b1: 0, kid: 0, kid_len: 0, ikid: 0, ikid_len: 0, strlen: s.strlen, alg: s.alg, ialg: s.alg, sign_fails: s.sign_fails, oracles: 0,
     };
     let mut st = Stores::new(&cs);
     let p = crate::cert::build_params(&cs, &mut st).params;
